@@ -141,14 +141,19 @@ pub fn compare_simd(left: &dyn Array, right: &dyn Array, op: CompareOp) -> Resul
         )));
     }
 
-    match op {
+    let values = match op {
         CompareOp::Eq => compare_eq(left, right),
         CompareOp::Ne => compare_ne(left, right),
         CompareOp::Lt => compare_lt(left, right),
         CompareOp::Le => compare_le(left, right),
         CompareOp::Gt => compare_gt(left, right),
         CompareOp::Ge => compare_ge(left, right),
-    }
+    }?;
+
+    // A comparison with NULL on either side is NULL (as in arrow's cmp kernels);
+    // the loops above only looked at the physical values.
+    let nulls = arrow::buffer::NullBuffer::union(left.nulls(), right.nulls());
+    Ok(BooleanArray::new(values.values().clone(), nulls))
 }
 
 /// Comparison operation type
